@@ -36,18 +36,23 @@ def load_fluid_with_ufs():
     return mod, gas, ufs
 
 
-def replay_table_pp(model, n=4):
+def replay_table_pp(model, n=4, descending=False):
     import numpy as np
     from bluebonnet.fluids import fluid as rf
     names = [f"p{k}" for k in range(n)] + [f"mu{k}" for k in range(n)] + [f"z{k}" for k in range(n)]
     m = model_floats(model, names, default={k: 1.0 for k in names})
     p = np.array([m[f"p{k}"] for k in range(n)])
+    if np.any(np.diff(p) <= 0):
+        p = np.cumsum(np.abs(p) + 1.0)
     mu = np.array([m[f"mu{k}"] for k in range(n)])
     z = np.array([m[f"z{k}"] for k in range(n)])
+    if descending:
+        p, mu, z = p[::-1].copy(), mu[::-1].copy(), z[::-1].copy()     # the same table listed from high pressure to low
     got = np.asarray(rf.pseudopressure(p, mu, z), float)
     y = 2 * p / (mu * z)
     want = np.concatenate([[0.0], np.cumsum(np.diff(p) * (y[:-1] + y[1:]) / 2)])
-    bad = bool(np.any(np.abs(got - want) > 1e-9 * abs(want).max()) or got[0] != 0 or np.any(np.diff(got) <= 0))
+    order = np.argsort(p)
+    bad = bool(np.any(np.abs(got - want) > 1e-9 * abs(want).max()) or got[0] != 0 or np.any(np.diff(got[order]) <= 0))
     return bad, {"what": f"fluids.pseudopressure = {got.tolist()} vs trapezoid rule of 2p/(mu Z) = {want.tolist()}", "inputs": m}
 
 
@@ -114,8 +119,9 @@ def job_hussainy(job):
             job.prove(f"hussainy[{tag}]/reach", pr.pc, expect="sat")
 
 
-def job_transform(job, n):
-    SS.selftest(job, job.seed)
+def job_transform(job, n, descending=False):
+    if not descending:
+        SS.selftest(job, job.seed)
     mod, gas, ufs = load_fluid_with_ufs()
     job.encoded(mod, "pseudopressure")
     job.bound(transform_rows=n)
@@ -127,24 +133,28 @@ def job_transform(job, n):
             dom.append(T.b_lt(P(ps[k - 1]), P(v)))
     mus = [fresh(f"mu{k}", pos=True) for k in range(n)]
     zs = [fresh(f"z{k}", pos=True) for k in range(n)]
-    rp = (replay_table_pp, {"n": n})
+    if descending:
+        # rows listed from high pressure to low (a depletion table): zero at the first row (the reference), each increment
+        # the trapezoid of its own interval, increasing in *pressure*
+        ps, mus, zs = ps[::-1], mus[::-1], zs[::-1]
+    rp = (replay_table_pp, {"n": n, "descending": descending})
     for k, pr in enumerate(paths(job, lambda: mod.pseudopressure(SymArray(ps), SymArray(mus), SymArray(zs)), dom)):
         got = pr.value.d
         y = [2 * ps[j] / (mus[j] * zs[j]) for j in range(n)]
         want = [Q(0)]
         for j in range(n - 1):
             want.append(want[-1] + (ps[j + 1] - ps[j]) * (y[j] + y[j + 1]) / 2)
-        job.prove(f"transform[{n}]/rows==trapezoid of 2p/(mu Z)", pr.pc + [T.b_or(*[not_close(g, w, abs_tol=Fraction(0)) if j else T.b_not(T.b_eq0(P(g)))
+        job.prove(f"transform[{n}{',rows listed high to low' if descending else ''}]/rows==trapezoid of 2p/(mu Z)", pr.pc + [T.b_or(*[not_close(g, w, abs_tol=Fraction(0)) if j else T.b_not(T.b_eq0(P(g)))
                                                                              for j, (g, w) in enumerate(zip(got, want))])],
                   bound=f"{n} rows", replay=rp)
-        job.prove(f"transform[{n}]/strictly increasing", pr.pc + [T.b_or(*[T.b_le(P(got[j + 1]), P(got[j])) for j in range(n - 1)])],
+        job.prove(f"transform[{n}{',rows listed high to low' if descending else ''}]/strictly increasing in pressure", pr.pc + [T.b_or(*[(T.b_le(P(got[j]), P(got[j + 1])) if descending else T.b_le(P(got[j + 1]), P(got[j]))) for j in range(n - 1)])],
                   bound=f"{n} rows", replay=rp)
         # additivity over adjacent intervals: m[k] - m[0] = (m[j] - m[0]) + (m[k] - m[j]) is an identity of
         # differences; the claim with content is that each increment depends only on its own interval
-        job.prove(f"transform[{n}]/increment k depends only on rows k, k+1",
+        job.prove(f"transform[{n}{',rows listed high to low' if descending else ''}]/increment k depends only on rows k, k+1",
                   pr.pc + [T.b_or(*[not_close(got[j + 1] - got[j], (ps[j + 1] - ps[j]) * (y[j] + y[j + 1]) / 2, abs_tol=Fraction(0))
                                     for j in range(n - 1)])], bound=f"{n} rows", replay=rp)
-        job.prove(f"transform[{n}]/reach", pr.pc, expect="sat")
+        job.prove(f"transform[{n}{',rows listed high to low' if descending else ''}]/reach", pr.pc, expect="sat")
 
 
 def replay_builder_vs_quad(model, dry="dry gas", pmax=45):
@@ -232,7 +242,7 @@ FALLBACK = [(replay_builder, {}), (replay_builder, {"dry": "wet gas"}), (replay_
 
 
 def jobs(tier):
-    out = [("hussainy", job_hussainy), ("transform3", lambda j: job_transform(j, 3)), ("builder", lambda j: job_builder(j, 45))]
+    out = [("hussainy", job_hussainy), ("transform3", lambda j: job_transform(j, 3)), ("transform3-descending", lambda j: job_transform(j, 3, True)), ("builder", lambda j: job_builder(j, 45))]
     if tier != "quick":
         out += [("transform4", lambda j: job_transform(j, 4)), ("transform5", lambda j: job_transform(j, 5)),
                 ("builder75", lambda j: job_builder(j, 75))]
